@@ -282,8 +282,14 @@ fn fault_section(shard: Shard, rep: &mut Report) {
     }
     let w = Arc::new(w);
     let mut no = 0u64;
+    for auto_sync in [true, false] {
+    scn::AUTO_SYNC.with(|a| a.set(auto_sync));
     for scn in scn::all_scenarios() {
         if scn.debris() || matches!(scn.op.as_str(), "get" | "touch" | "accept") {
+            continue;
+        }
+        // (handles built with auto_sync(false) only for the library-populated paths, where the flush is the library's)
+        if !auto_sync && !matches!(scn.op.as_str(), "ensure" | "ensure_chunks" | "replace" | "promote" | "set_temp_file" | "put_temp_file") {
             continue;
         }
         let (n, trace, _res) = fault_free(&scn);
@@ -320,13 +326,15 @@ fn fault_section(shard: Shard, rep: &mut Report) {
                 if let Some(m) = hits.first() {
                     rep.violation(
                         "content:published-corrupt-under-fault",
-                        format!("{} with call {} ({}) failing {:?}: {}", scn.to_json(), k, trace[k].func, a, m),
+                        format!("{}{} with call {} ({}) failing {:?}: {}", scn.to_json(), if auto_sync { "" } else { " auto_sync(false)" }, k, trace[k].func, a, m),
                         serde_json::json!({"fault_section": true}),
                     );
                 }
             }
         }
     }
+    }
+    scn::AUTO_SYNC.with(|a| a.set(true));
 }
 
 /// A populate callback that fails (before writing anything, or after the first of several writes,
@@ -472,7 +480,8 @@ pub fn run(tier: Tier, shard: Shard, rep: &mut Report) {
         classic pairs). Oracle: bytes read from every returned handle are exactly one value written for that key; after every rename, \
         link, write, copy or truncate event every key-named file visible in a cache directory holds a complete value for its name; \
         same at the end. The same state invariant is also evaluated after every call of every write scenario of the C02 table with \
-        each single I/O fault injected (a torn publication on an error path is visible without any second participant), and, \
+        each single I/O fault injected, close losing the unflushed tail included, with handles built with auto-sync and, for the \
+        library-populated paths, with auto_sync(false) (a torn publication on an error path is visible without any second participant), and, \
         fault-free, for ensure and get_or_update x {Accept, Promote, Replace} whose populate callback fails (NotFound or another error, \
         before writing or after the first write) x 3 front-ends x 5 pre-states x {key held by a read-only level, key absent everywhere} \
         x {no checker, byte-equality checker}: the returned handle, every intermediate state, the final tree and a later lookup \
